@@ -259,6 +259,43 @@ def apply(world, op):
             prune_unviable_and_unnecessary_nodes(g)
             world.count('op:prune')
             world.removed_flag = True
+        elif kind == 'edit-model':
+            # the model the graph was generated from is edited through its API (a link removed / put back, a defense
+            # value changed); the graph is then regenerated and must equal a fresh graph of the edited model
+            if w['built'] is None or g.model is None:
+                return None
+            import random as _random
+            r2 = _random.Random(op[1])
+            model = w['built'].model
+            stash = w.setdefault('removed_links', [])
+            did = None
+            if model.associations and r2.random() < 0.6:
+                a0 = model.associations[r2.randrange(len(model.associations))]
+                model.remove_association(a0)
+                stash.append(a0)
+                did = 'link-removed'
+            elif stash:
+                a0 = stash.pop()
+                try:
+                    model.add_association(a0)
+                    did = 'link-put-back'
+                except Exception:
+                    did = None
+            if did is None and model.assets:
+                a1 = model.assets[r2.randrange(len(model.assets))]
+                ds = sorted(w['built'].lang.defenses(str(a1.type)))
+                if ds:
+                    setattr(a1, ds[0], r2.choice([0.0, 1.0, 0.5]))
+                    did = 'defense-changed'
+            if did is None:
+                return None
+            world.count('class:model-edited-then-regenerated:' + did)
+            with cpu_budget(CASE_CPU_S):
+                g.regenerate_graph()
+            w['nodes'] = []
+            f = fresh_equivalent(w, world)
+            if f:
+                return (f[0], 'after the model was edited (%s): %s' % (did, f[1]))
         elif kind == 'regenerate':
             if w['built'] is None:
                 return None
@@ -365,8 +402,10 @@ def gen_history(rng, n, generated):
             ops.append(['analyse'])
         elif r < 0.82:
             ops.append(['prune'])
-        elif r < 0.87 and generated:
+        elif r < 0.85 and generated:
             ops.append(['regenerate'])
+        elif r < 0.87 and generated:
+            ops.append(['edit-model', rng.randrange(10 ** 9)])
         elif r < 0.93:
             ops.append(['deepcopy', rng.choice(['continue-on-copy', 'continue-on-original'])])
         elif r < 0.955:
